@@ -301,8 +301,11 @@ pub fn generate(r: &mut Rng, tier: &str, emit: &mut dyn FnMut(String)) {
                     if !ok {
                         continue;
                     }
-                    if let Ok(i) = new_info(m.clone()) {
-                        ps = info::txt_of_info(&i).0;
+                    // (the stored order is read from the crate; if the crate panics here - which the
+                    // txt-trip op itself then reports - keep the generated order)
+                    let mm = m.clone();
+                    if let Ok(Some(stored)) = std::panic::catch_unwind(move || new_info(mm).ok().map(|i| info::txt_of_info(&i).0)) {
+                        ps = stored;
                     }
                 } else if ps.iter().any(|(k, _)| std::str::from_utf8(k).is_err()) {
                     continue;
